@@ -115,16 +115,18 @@ func commentsInput(cs []Comment, texts []string) map[string]any {
 	maxRow := 1
 	arr := []any{}
 	for i, c := range cs {
-		if c.Row > maxRow {
+		var loc any = fmt.Sprintf("%d:1:%d:%d", c.Row, c.Row, 2+len(texts[i]))
+		if c.Row > 64 {
+			// huge rows: hand the location over as an object (to_location_object passes objects through),
+			// a line table of that size is not needed then
+			loc = map[string]any{"row": c.Row, "col": 1, "text": "#", "end": map[string]any{"row": c.Row, "col": 2}}
+		} else if c.Row > maxRow {
 			maxRow = c.Row
 		}
 		arr = append(arr, map[string]any{
 			"text":     base64.StdEncoding.EncodeToString([]byte(texts[i])),
-			"location": fmt.Sprintf("%d:1:%d:%d", c.Row, c.Row, 2+len(texts[i])),
+			"location": loc,
 		})
-	}
-	if maxRow > 64 {
-		maxRow = 0 // huge rows: no line table (to_location_object then needs none for an empty text)
 	}
 	lines := make([]any, maxRow)
 	for i := range lines {
@@ -278,6 +280,18 @@ func helperCases(o *opa, r *hutil.Rng, out *hutil.Out, n int) {
 		for j := 0; j < 3; j++ {
 			row := r.Below(9) // 0 = no location
 			title := genTitle(r, texts)
+			if r.Below(3) > 0 && len(cs) > 0 {
+				// aim at one of the comments: a row next to it and one of the words after its marker
+				k := r.Below(len(cs))
+				row = max(cs[k].Row+r.Below(4)-1, 0)
+				if i := strings.Index(texts[k], "regal ignore:"); i >= 0 {
+					words := strings.Split(texts[k][i+13:], ",")
+					w := strings.TrimSpace(hutil.Choice(r, words))
+					if w != "" && r.Below(5) > 0 {
+						title = w
+					}
+				}
+			}
 			vin, v := mkV(title, row)
 			in["v"] = vin
 			_, def, errc := o.eval(qIgnored, in)
@@ -409,9 +423,9 @@ func must(err error) {
 	}
 }
 
-// rules whose verdict depends on line lengths / formatting / the number of lines: not row-equivariant
+// rules whose verdict depends on line lengths / formatting / the number of lines / comments inside a rule body: not row-equivariant
 // by definition (the Section hypothesis H_shift of insert_directive_effect excludes them)
-var notEquivariant = []string{"opa-fmt", "line-length", "file-length", "rule-length"}
+var notEquivariant = []string{"opa-fmt", "line-length", "file-length", "rule-length", "one-liner-rule"}
 
 var aggregateRules = []string{"unresolved-import", "circular-import", "prefer-package-imports", "impossible-not",
 	"missing-metadata", "no-defined-entrypoint", "dup-rule"}
@@ -746,7 +760,7 @@ type E2E struct {
 	RawAfter  []Viol    `json:"raw_after"`
 	TextAfter string    `json:"text_after"`
 	HShift    bool      `json:"h_shift"`   // raw_after == shift(raw): the hypothesis of the theorem, observed
-	OwnAbove  bool      `json:"own_above"` // a directive of the module sits right above the inserted line
+	OwnAbove  bool      `json:"own_above"` // a directive of the module sits right above the inserted line (or the line already has a comment)
 	PredOK    bool      `json:"pred_ok"`
 	Skip      string    `json:"skip,omitempty"`
 }
@@ -820,6 +834,7 @@ func e2ePerFile(e *env, r *hutil.Rng, out *hutil.Out, mods []*module, maxTargets
 			targets = append(targets, v)
 		}
 		hutil.Shuffle(r, targets)
+		targets = spreadByTitle(targets)
 		sort.SliceStable(targets, func(i, j int) bool { // a custom-rule violation first, when there is one
 			return targets[i].Title == "no-foo-rule" && targets[j].Title != "no-foo-rule"
 		})
@@ -851,7 +866,8 @@ func e2ePerFile(e *env, r *hutil.Rng, out *hutil.Out, mods []*module, maxTargets
 					}
 					c.TextAfter = strings.Join(lines, "\n") + "\n"
 					q := editRow(pl, tv.Row)
-					c.OwnAbove = pl != "same" && m.OwnDirRows[q-1]
+					c.OwnAbove = (pl != "same" && m.OwnDirRows[q-1]) ||
+						(pl == "same" && strings.Contains(m.Lines[tv.Row-1], "#")) // the line already ends in a comment
 					name := fmt.Sprintf("e%d_%s_%s_%s", ti, sp.Name, pl, m.Name)
 					files2[name] = c.TextAfter
 					files2["d_"+name] = defuse(c.TextAfter)
@@ -1095,6 +1111,21 @@ func (e *env) twoPhase(files map[string]string, withDirs bool) ([]Viol, error) {
 	return violsOf(rep, func(s string) string { return s }, true), nil
 }
 
+// spreadByTitle reorders so that the first k targets cover as many different rules as possible
+func spreadByTitle(ts []Viol) []Viol {
+	var out, rest []Viol
+	seen := map[string]bool{}
+	for _, t := range ts {
+		if seen[t.Title] {
+			rest = append(rest, t)
+		} else {
+			seen[t.Title] = true
+			out = append(out, t)
+		}
+	}
+	return append(out, rest...)
+}
+
 func allComments(in rules.Input) map[string][]Comment {
 	out := map[string][]Comment{}
 	for _, n := range in.FileNames {
@@ -1167,6 +1198,7 @@ func e2eAggregate(e *env, r *hutil.Rng, out *hutil.Out, wss []workspace, maxTarg
 			targets = append(targets, v)
 		}
 		hutil.Shuffle(r, targets)
+		targets = spreadByTitle(targets)
 		if len(targets) > maxTargets {
 			targets = targets[:maxTargets]
 		}
@@ -1208,7 +1240,8 @@ func e2eAggregate(e *env, r *hutil.Rng, out *hutil.Out, wss []workspace, maxTarg
 						}
 						fs[tv.File] = strings.Join(lines, "\n") + "\n"
 						c.Files = fs
-						c.OwnAbove = pl != "same" && ownDirRows(w.Files[tv.File])[editRow(pl, tv.Row)-1]
+						c.OwnAbove = (pl != "same" && ownDirRows(w.Files[tv.File])[editRow(pl, tv.Row)-1]) ||
+							(pl == "same" && strings.Contains(w.Files[tv.File][tv.Row-1], "#"))
 						key := fmt.Sprintf("%s|%s|%d|%s", w.Name, tv.File, tv.Row, pl)
 						if !shareRaw {
 							key += "|" + sp.Name
@@ -1296,7 +1329,7 @@ func main() {
 		return
 	}
 
-	nHelper, nMods, maxT, nGenWs, maxAggT := 400, 6, 8, 1, 3
+	nHelper, nMods, maxT, nGenWs, maxAggT := 400, 6, 8, 1, 2
 	if tier == "thorough" {
 		nHelper, nMods, maxT, nGenWs, maxAggT = 3000, 40, 12, 12, 10
 	}
